@@ -5,6 +5,20 @@ import json, sys
 pid, wt = sys.argv[1], sys.argv[2]
 n = int(sys.argv[3]) if len(sys.argv) > 3 else 3
 p = [json.loads(l) for l in open('/verif/properties.jsonl') if json.loads(l)['id'] == pid][0]
+import glob
+avoid = []
+for f in sorted(glob.glob(f'/tmp/wt/{pid}*/mutants/m*/meta.json') + glob.glob(f'/verif/seeded/{pid}-*/meta.json')):
+    try:
+        sm = json.load(open(f)).get('summary', '')
+        if sm and sm not in avoid:
+            avoid.append(sm)
+    except Exception:
+        pass
+AVOID = ""
+if avoid and '--fresh' not in sys.argv:
+    AVOID = ("\nOther people already seeded the following changes for this property; do NOT repeat them or close variants of "
+             "them - look for different functions, different clauses of the property and different triggering conditions:\n"
+             + "\n".join(f"  - {a}" for a in avoid) + "\n")
 print(f"""You are testing a verification effort by seeding realistic bugs. You work ONLY inside the git worktree {wt}
 (a checkout of the Python project gbeced/basana: an async event-driven algorithmic trading framework with a
 backtesting exchange simulator, an event dispatcher and Binance/Bitstamp clients). Do NOT read or write anything
@@ -28,6 +42,7 @@ aioresponses, which is incompatible with the installed aiohttp). A change is acc
 unchanged: run the suite WITHOUT -x before and after (`... -m pytest -q -p no:cacheprovider tests 2>&1 | tail -3`) and
 compare the pass/fail counts (226 passed, 69 failed) - better, compare the list of failing test ids.
 
+{AVOID}
 Make the changes realistic - the kind of slip a maintainer could make in a refactoring or an "optimisation" - and SUBTLE:
 prefer changes that need something specific to manifest (a particular interleaving, a fault at a particular point, a
 multi-step sequence of operations, an unusual input or configuration, or two cooperating sites that each look fine
